@@ -626,6 +626,44 @@ type shEmbForeignTag struct {
 	B        string `parser:"@Int" json:"b"`
 }
 
+// cycles among productions BELOW the root (the root itself is not on the cycle): the left-recursion analysis asks whether such
+// a production can match nothing while it is still being analysed.  Build may accept or refuse; it has to return.
+type shCycRootA struct {
+	B *shCycB `@@ "x"`
+}
+type shCycB struct {
+	Self *shCycB `  @@ "y"`
+	Z    string  `| @Ident`
+}
+type shCycRootM struct {
+	B *shCycMB `@@ "x"`
+}
+type shCycMB struct {
+	C *shCycMC `  @@ "y"`
+	Q string   `| @Ident`
+}
+type shCycMC struct {
+	B *shCycMB `@@ "z"`
+}
+type shCycRootN struct {
+	B *shCycNB `@@ "x"`
+}
+type shCycNB struct {
+	C *shCycNC `@@?`
+}
+type shCycNC struct {
+	B *shCycNB `@@?`
+	K string   `@Ident?`
+}
+type shCycRootG struct {
+	B []*shCycGB `( @@ "," )* "x"`
+}
+type shCycGB struct {
+	Pre  string   `@Ident?`
+	Self *shCycGB `( "(" @@ ")" )?`
+	Alt  *shCycGB `( (?= "[" ) @@ )?`
+}
+
 // shape-run: Build on struct shapes; prints "name\toutcome".
 func shapeRun(args []string) error {
 	debug.SetMaxStack(256 << 20)
@@ -804,5 +842,9 @@ func shapeRun(args []string) error {
 	})
 	run("complex", func() error { _, err := participle.Build[shComplex](); return err })
 	run("uintptr", func() error { _, err := participle.Build[shUintptr](); return err })
+	run("cycle-below-root-self", func() error { _, err := participle.Build[shCycRootA](); return err })
+	run("cycle-below-root-mutual", func() error { _, err := participle.Build[shCycRootM](); return err })
+	run("cycle-below-root-nullable", func() error { _, err := participle.Build[shCycRootN](); return err })
+	run("cycle-below-root-guarded", func() error { _, err := participle.Build[shCycRootG](); return err })
 	return nil
 }
